@@ -12,7 +12,7 @@ EXTENDS TimerMgr, IOUtils
 TraceLog == ndJsonDeserialize(IOEnv.TRACE)
 NL == Len(TraceLog)
 UNIT == 20000        \* one tick of the scripts, in microseconds (UNIT_MS of the harness)
-TOL == 3000          \* kernel timer slack + poll latency allowed before "must be readable"
+TOL == 6000          \* kernel timer slack, a stalled virtual CPU, poll latency: allowed before "must be readable"
 EPS == 3             \* double -> timespec rounding of a programmed time
 
 VARIABLES l, ms, nv
